@@ -1,6 +1,7 @@
 //! vsim: deterministic simulation with fault injection for rust-vfs (see /verif/DESIGN.md).
 #![allow(dead_code, unused_imports)]
 
+mod conc;
 mod gen;
 mod harness;
 mod model;
